@@ -152,10 +152,19 @@ def run_case(case):
             f.__name__ = 'seg%d' % k
             # Flow only accepts plain functions whose single parameter is named row
             return f
+        def pseg(k):
+            # package-level step: counts the package-definition phase of its segment
+            def f(package):
+                cnt['pkg%d' % k] += 1
+                yield package.pkg
+                yield from package
+            return f
         for k in range(ncp):
             steps.append(seg(k))
+            steps.append(pseg(k))
             steps.append(d.checkpoint('cp%d' % k, checkpoint_path=cpdir))
         steps.append(seg(ncp))
+        steps.append(pseg(ncp))
         return steps
 
     def add(kind, msg, mech):
@@ -175,6 +184,7 @@ def run_case(case):
         cnt = {'pulled': 0}
         for k in range(ncp + 1):
             cnt['seg%d' % k] = 0
+            cnt['pkg%d' % k] = 0
         out = lab.run(build(cnt), validate=True)
         if not out.ok:
             add('run_failed', 'run %d failed: %s' % (run_no, out.errstr()), 'run_failed/' + '+'.join(sorted(classes)))
@@ -187,6 +197,7 @@ def run_case(case):
         want = {'pulled': 0 if last is not None else total_rows}
         for k in range(ncp + 1):
             want['seg%d' % k] = total_rows if (last is None or k > last) else 0
+            want['pkg%d' % k] = 1 if (last is None or k > last) else 0
         if cnt != want:
             add('upstream_executed', 'run %d with checkpoints existing=%r: counters %r expected %r'
                 % (run_no, exists, cnt, want), 'counters')
